@@ -6,11 +6,11 @@ from vf.runner import Inst
 PROPERTY = 'C18'
 LEVEL = 'model_checking'
 BOUNDS = {'quick': dict(sites='sgn/lt (l=4), lsb (l=4), trunc (secfxp 8:4), to_bits (l=4, all bits and 2 bits), trailing_zeros (l=4), convert int8->int16 / int16->int8, '
-                              'mod 3 (l=4), is_zero_public (large-field regime), reciprocal over GF(2^61-1)', k='security parameter 30 (and 8 for the bound check)',
+                              'mod 3 (l=4), is_zero_public (large-field regime), reciprocal over GF(2^61-1), _is_zero (k=8 openings; SecInt(18) and GF(23))', k='security parameter 30 (and 8 for the bound check)',
                         prf='m=3,t=1 PRSS: random_bits, _randoms with bound, is_zero_public (small field), trunc, convert: no (key, input) pair evaluated twice'),
           'thorough': dict(sites='as quick with l in {4,6}', prf='as quick plus m=5,t=2')}
 OUTSIDE = ['the statistical-distance computation itself (smudging lemma: a value of range < 2^a masked by a uniform value of range 2^(a+k) is within 2^-k of uniform; cited, not derived)',
-           'views consisting of shares (C13, C14)', 'NumPy variants', '_is_zero (probabilistic zero test with Legendre symbols)', 'secure floating point']
+           'views consisting of shares (C13, C14)', 'NumPy variants', 'secure floating point']
 ASSUMPTIONS = ['random_bits ideal (uniform independent bits), PRF outputs uniform on [0,bound) and independent for distinct (key, input) pairs',
                'the multiplicative mask is non-zero (documented "with high probability")']
 RULE = ('Per opening site reached on a path, with c the opened term before reduction mod p: (A1) 0 <= c < p (no wrap); (A2) c(s,rho) - c(s\',rho) = c(s,rho\') - c(s\',rho\') '
@@ -269,6 +269,103 @@ def h_multiplicative(env):
     env.check('M2 zero iff a zero (r != 0)', env.implies((r % p) != 0, (((a * r) % p) == 0) == ((a % p) == 0)))
 
 
+class _Stop(Exception):
+    pass
+
+
+def _run_is_zero(env, pbits):
+    """the real Runtime._is_zero up to (and including) its opening; returns (opened values, p, a, runtime kit)."""
+    from vf import kit, l2
+    P = env.params
+    k = l2.L2(env, k=P.get('k', 8))
+    mpc = k.mpc
+    st = mpc.SecInt(P.get('l', 18)) if not P.get('fld') else mpc.SecFld(P['fld'])
+    F = st.field
+    p = F.modulus
+    opened = []
+
+    def output(x, *a, **kw):
+        for e in x:
+            opened.append(kit.fval(e))
+        raise _Stop()
+    mpc.output = output
+    a = env.fresh('a', 1, p) if P.get('fld') else env.fresh('a', -(1 << (P.get('l', 18) - 1)), 1 << (P.get('l', 18) - 1))
+    x = st(F(a))
+    try:
+        mpc._is_zero(x)
+    except _Stop:
+        pass
+    return opened, p, a, k
+
+
+def h_is_zero_prob(env):
+    """Runtime._is_zero ([NO07] probabilistic zero test, used for bit lengths > 2k): each of the k opened values must be a*r_i + w_i with r_i a fresh
+    uniform field element used in this opening only and w_i free of r_i: then, for a != 0, the k opened values are uniform and independent of a
+    and of everything else; for a == 0 the result differs (up to 2^-k) from that of every non-zero a, so equal outputs mean both or neither are 0."""
+    from vf import l1
+    P = env.params
+    kbits = P.get('k', 8)
+    if env.mode == 'conc':
+        from vf.harness import Env
+        base = dict(env.values)
+
+        def run(vals):
+            e2 = Env('conc', values=vals, seed=env.seed, params=env.params)
+            o, p, a, _ = _run_is_zero(e2, None)
+            Env.cur = env
+            return o, p, a, e2
+        o0, p, a, e0 = run(base)
+        env.check('k_openings', len(o0) == kbits)
+        prfs = sorted(n for n in e0.vars if n.startswith('prf_'))
+        r2 = base.get('r2', 1)
+        dep = {}
+        for n in prfs:
+            v2 = dict(e0.values)
+            v2[n] = r2 if r2 != e0.values[n] else (r2 + 1) % p
+            o1, _, _, _ = run(v2)
+            dep[n] = (v2[n], o1)
+        for i in range(len(o0)):
+            excl = [n for n in prfs if dep[n][1][i] != o0[i] and all(dep[n][1][j] == o0[j] for j in range(len(o0)) if j != i)]
+            ok = [n for n in excl if e0.vars[n] == (0, p) and (dep[n][1][i] - o0[i] - a * (dep[n][0] - e0.values[n])) % p == 0]
+            env.check(f'is_zero_prob:open{i}:Z0 some fresh uniform mask occurs in this opening only', bool(excl))
+            env.check(f'is_zero_prob:open{i}:Z1 mask enters as a*r', bool(ok) or not excl)
+        return
+    import z3
+    from vf.symx import SymInt, Ctx, _b
+    from vf.harness import _free_vars
+    opened, p, a, k = _run_is_zero(env, None)
+    R = type(k.mpc)
+    env.encoded(R._is_zero, R._randoms, R.schur_prod)
+    env.check('k_openings', len(opened) == kbits)
+    env.check('blum_prime', p % 4 == 3)
+
+    def term(c):
+        return SymInt(c.cong[0].t, None, None) if (isinstance(c, SymInt) and c.cong is not None and c.cong[1] == p) else c
+    names = [{str(v) for v in _free_vars(term(c).t)} for c in opened]
+    r2 = env.fresh('r2', 0, p)
+    ctx = Ctx.cur
+    for i, c in enumerate(opened):
+        U = term(c)
+        excl = sorted(n for n in names[i] if n.startswith('prf_') and all(n not in names[j] for j in range(len(opened)) if j != i))
+        env.check(f'is_zero_prob:open{i}:Z0 some fresh uniform mask occurs in this opening only', bool(excl))
+        if not excl:
+            continue
+        chosen = None
+        goals = {}
+        for n in excl:
+            r = env.var(n)
+            goals[n] = ((env.term_subst(U, [(r, r2)]) - U - a * (r2 - r)) % p == 0) & (env.vars[n] == (0, p))
+            if ctx.check(z3.Not(_b(goals[n]))) == 'unsat':
+                chosen = n
+                break
+        chosen = chosen or excl[-1]
+        r = env.var(chosen)
+        env.check(f'is_zero_prob:open{i}:Z1 mask enters as a*r', goals[chosen])
+        l1.no_zero_divisors(env, a, r2 - r, p)
+        env.check(f'is_zero_prob:open{i}:Z2 bijective in the mask for a != 0',
+                  env.implies(((a % p) != 0) & (((env.term_subst(U, [(r, r2)]) - U) % p) == 0), r == r2))
+
+
 def h_prf_unique(env):
     """multi-party PRSS runs: every PRF evaluation uses a fresh input for its key (pseudorandom sharings are independent)."""
     from vf import simnet, l1, kit
@@ -389,6 +486,8 @@ def instances(tier):
     out.append(Inst('mod5[l=12]', h_additive, dict(what='mod', l=12, b=5), **T))
     out.append(Inst('is_zero_public[large field]', h_multiplicative, dict(what='is_zero_public'), **T))
     out.append(Inst('reciprocal[GF(2^61-1)]', h_multiplicative, dict(what='reciprocal'), **T))
+    out.append(Inst('is_zero_prob[SecInt(18),k=8]', h_is_zero_prob, dict(l=18, k=8), **T))
+    out.append(Inst('is_zero_prob[GF(23),k=8]', h_is_zero_prob, dict(fld=23, k=8), **T))
     for (m, t) in ((3, 1),) if q else ((3, 1), (5, 2)):
         for prog in ('random_bits', 'randoms', 'zero_small', 'lsb', 'convert'):
             out.append(Inst(f'prf_unique[{prog},m={m},t={t}]', h_prf_unique, dict(m=m, t=t, prog=prog), **T))
